@@ -97,6 +97,7 @@ type faultCase struct {
 	Faults   []string `json:"faults"`
 	Strategy string   `json:"strategy"`
 	Solo     bool     `json:"solo"` // run alone (no other exchange in the process), healthy exchange right after the fault
+	Dead     string   `json:"dead"` // active checks on, a third backend that is down in this way ("none": no such backend)
 	F        struct {
 		CB      bool `json:"cb"`
 		RL      bool `json:"rl"`
@@ -212,9 +213,27 @@ func runFault(idx int, raw json.RawMessage, seed int64) map[string]any {
 		cfg.Plugins.Chain = []config.PluginConfig{pluginCfg("logging"), pluginCfg("size_limit"), pluginCfg("gzip"), pluginCfg("headers")}
 		cfg.Logging.RequestID.Enabled = true
 	}
+	if c.Dead != "" && c.Dead != "none" {
+		cfg.Backends = append(cfg.Backends, config.BackendConfig{Name: "b3", Address: "http://" + deadBackend(c.Dead), Weight: 1})
+		cfg.HealthChecks.Active = config.ActiveHealthCheckConfig{Enabled: true, Interval: 2, Timeout: 1, Path: "/healthz"}
+		// the window of probe ejections is this setting whether or not passive checks are enabled
+		cfg.HealthChecks.Passive.UnhealthyTimeout = 30
+		if !c.F.Passive {
+			cfg.HealthChecks.Passive.UnhealthyThreshold = 2
+		}
+	}
 	h, err := startHelios(cfg)
 	if err != nil {
-		return map[string]any{"reqs": []any{}, "probe": 0, "second": 0, "gauges": false, "error": err.Error()}
+		return map[string]any{"reqs": []any{}, "probe": 0, "second": 0, "gauges": false, "error": err.Error(),
+			"died": strings.Contains(err.Error(), "exited by itself")}
+	}
+	if c.Dead != "" && c.Dead != "none" {
+		time.Sleep(1500 * time.Millisecond) // first probe round (incl. its 1 s timeout) is over
+	}
+	if h.lb == nil {
+		// the real process: nothing to stop in here, no gauges to read
+		defer h.kill()
+		return faultExchanges(h, c, false)
 	}
 	defer func() {
 		h.srv.Close()
@@ -226,6 +245,10 @@ func runFault(idx int, raw json.RawMessage, seed int64) map[string]any {
 		case <-time.After(3 * time.Second):
 		}
 	}()
+	return faultExchanges(h, c, true)
+}
+
+func faultExchanges(h *helios, c faultCase, gauges bool) map[string]any {
 	reqs := []any{}
 	bound := 13 * time.Second
 	for _, f := range c.Faults {
@@ -256,6 +279,9 @@ func runFault(idx int, raw json.RawMessage, seed int64) map[string]any {
 	p2 := probe()
 	time.Sleep(50 * time.Millisecond)
 	gz := true
+	if !gauges {
+		return map[string]any{"reqs": reqs, "probe": p1, "second": p2, "gauges": true, "died": h.died()}
+	}
 	lst := make(chan []int32, 1)
 	go func() {
 		a := []int32{}
@@ -274,5 +300,50 @@ func runFault(idx int, raw json.RawMessage, seed int64) map[string]any {
 	case <-time.After(3 * time.Second):
 		gz = false // the listing itself never returned
 	}
-	return map[string]any{"reqs": reqs, "probe": p1, "second": p2, "gauges": gz}
+	return map[string]any{"reqs": reqs, "probe": p1, "second": p2, "gauges": gz, "died": false}
+}
+
+var (
+	deadMu   sync.Mutex
+	deadAddr = map[string]string{}
+)
+
+// deadBackend: the address of a backend that is down in the given way for as long as the harness runs
+func deadBackend(kind string) string {
+	deadMu.Lock()
+	defer deadMu.Unlock()
+	if a, ok := deadAddr[kind]; ok {
+		return a
+	}
+	ln, err := net.Listen("tcp", "127.0.0.1:0")
+	if err != nil {
+		panic(err)
+	}
+	a := ln.Addr().String()
+	switch kind {
+	case "refuse":
+		ln.Close() // nobody listens there any more
+	case "hang":
+		go func() {
+			for {
+				c, err := ln.Accept()
+				if err != nil {
+					return
+				}
+				go func() { time.Sleep(30 * time.Second); c.Close() }()
+			}
+		}()
+	case "garbage":
+		go func() {
+			for {
+				c, err := ln.Accept()
+				if err != nil {
+					return
+				}
+				go func() { c.Write([]byte("\x00\x01 not http at all\r\n\r\n")); c.Close() }()
+			}
+		}()
+	}
+	deadAddr[kind] = a
+	return a
 }
